@@ -165,7 +165,7 @@ def _clone(v, memo):
     if isinstance(v, VPList):
         if id(v) in memo:
             return memo[id(v)][1]
-        n = VPList(v.chunks, v.sep, v.fresh)
+        n = VPList(v.chunks, v.sep, v.fresh, v.rev)
         memo[id(v)] = (v, n)
         return n
     if isinstance(v, VSymCache):
@@ -381,7 +381,7 @@ class Executor:
         if isinstance(v, VSList):
             return v.view.len() > 0
         if isinstance(v, VPList):
-            return PL.truth(v)
+            return PL.truth(v, st.ctx)
         if isinstance(v, VSeg):
             return v.t != 0            # only the empty segment is falsy
         if isinstance(v, VDict):
@@ -1370,9 +1370,9 @@ class Executor:
                         cl = None if lo is None else lo.conc()
                         ch = None if hi is None else hi.conc()
                         if cl is None and ch == -1 and hi is not None:
-                            yield PL.drop_last(fv[0]), s4
+                            yield PL.l_drop_last(fv[0]), s4
                         elif cl == 1 and hi is None:
-                            yield PL.drop_first(fv[0]), s4
+                            yield PL.l_drop_first(fv[0]), s4
                         else:
                             raise Unsupported("this slice of a split list")
                         continue
@@ -1417,9 +1417,9 @@ class Executor:
         if isinstance(base, VPList):
             ci = idx.conc() if isinstance(idx, VInt) else None
             if ci == -1:
-                yield from PL.last(self, st, base, node)
+                yield from PL.l_last(self, st, base, node)
             elif ci == 0:
-                yield from PL.first(self, st, base, node)
+                yield from PL.l_first(self, st, base, node)
             else:
                 raise Unsupported("this index into a split list")
             return
@@ -1943,6 +1943,25 @@ class Executor:
                 yield "raise", vals.exc, s3
                 continue
             cur, v = vals
+            if isinstance(s.op, ast.Add) and (isinstance(cur, VPList) or (isinstance(cur, VList) and isinstance(v, VPList))):
+                # list += split list (or the other way round): the name is re-bound to the extended split list
+                if isinstance(cur, VList):
+                    if cur.items and not all(isinstance(x, VStr) for x in cur.items):
+                        raise Unsupported("list += split list")
+                    base = PL.as_plist(cur, v)
+                    base = VPList(base.chunks, v.sep, True, v.rev)
+                else:
+                    self.check_frame(s3, cur, s)
+                    base = cur
+                PL.l_extend(base, v)
+                self.assign(s3, s.target, base)
+                yield "next", None, s3
+                continue
+            if isinstance(cur, VBool) and isinstance(v, VBool) and isinstance(s.op, (ast.BitOr, ast.BitAnd)):
+                r = VBool(z3.Or(cur.t, v.t) if isinstance(s.op, ast.BitOr) else z3.And(cur.t, v.t))
+                self.assign(s3, s.target, r)
+                yield "next", None, s3
+                continue
             if isinstance(cur, VList) and isinstance(s.op, ast.Add):
                 if not isinstance(v, (VList, VTuple)):
                     raise Unsupported("list += non-list")
@@ -2002,6 +2021,8 @@ class Executor:
             elif isinstance(base, VDict) and isinstance(idx, VStr) and idx.conc is not None:
                 base.d[idx.conc] = v
             elif isinstance(base, VPList) and isinstance(idx, VInt) and idx.conc() in (0, -1) and isinstance(v, VStr):
+                if base.rev:
+                    raise Unsupported("element store into a reversed split list")
                 if idx.conc() == -1:
                     PL.set_last(base, v)
                 else:
